@@ -81,6 +81,7 @@ pub enum Base {
     PingMissingField,
     MoreTestMore,
     MorePing,
+    HandlerErr,
 }
 
 pub const ALL_BASES: &[Base] = &[
@@ -110,6 +111,7 @@ pub const ALL_BASES: &[Base] = &[
     Base::PingMissingField,
     Base::MoreTestMore,
     Base::MorePing,
+    Base::HandlerErr,
 ];
 
 /// a request kind = base behaviour + flags
@@ -182,6 +184,7 @@ pub fn build(cfg: &SvcCfg, k: Kind, token: &str) -> Value {
         Base::PingMissingField => request(&format!("{}.Ping", PING), Some(json!({ "pong": token })), f),
         Base::MoreTestMore => request(&format!("{}.TestMore", MORE), Some(json!({"n": 3})), f),
         Base::MorePing => request(&format!("{}.Ping", MORE), Some(json!({ "ping": token })), f),
+        Base::HandlerErr => request(&format!("{}.ErrReply", a), Some(json!({ "token": token })), f),
     }
 }
 
